@@ -104,7 +104,7 @@ class Schema(ResolverMap):
         "implementations",
         "resolvers",
         "subscriptions",
-        "default_resolver",
+        "_default_resolver",
         "default_resolvers",
     )
 
@@ -137,6 +137,17 @@ class Schema(ResolverMap):
         )  # type: Dict[str, NamedType]
 
         self._invalidate_and_rebuild_caches()
+
+    @property
+    def default_resolver(self) -> Optional[Resolver]:
+        """Schema wide default resolver."""
+        return self._default_resolver
+
+    @default_resolver.setter
+    def default_resolver(self, resolver: Optional[Resolver]) -> None:
+        # Resolvers are part of what `validate` checks.
+        self._default_resolver = resolver
+        self._is_valid = None
 
     def _invalidate_and_rebuild_caches(self):
         self._possible_types = (
